@@ -40,8 +40,33 @@ declarations:
   - decl: double gammathree(double *v +rank(1), int n +implied(size(v)))
   - decl: bool deltafour(bool flag)
 """
+# overload sets in which single members are wrapped for some languages only: the automatic suffixes of the C and
+# Fortran names must not depend on what Python or Lua see
+OVERLOADS = """\
+library: Sel
+cxx_header: sel.hpp
+declarations:
+- decl: void scale(int a)
+- decl: void scale(long a)
+  options:
+    wrap_c: false
+    wrap_fortran: false
+- decl: void scale(double a)
+- decl: void shift(int a)
+  options:
+    wrap_python: false
+    wrap_lua: false
+- decl: void shift(double a)
+- decl: void shift(const std::string &a)
+  options:
+    wrap_c: false
+    wrap_fortran: false
+    wrap_lua: false
+- decl: int twice(int a = 1, int b = 2)
+"""
 DESCS = {
     "functions": FUNCS,
+    "overloads": OVERLOADS,
     "classes": libs.SMALL_CXX,
     "structs": libs.SMALL_C,
 }
